@@ -34,19 +34,47 @@ CAPTURE_EXEMPT = {"self._value = other._value":
                   'CHOICETYPE update rule, whose results are merged with += (fresh sum), never by assignment'}
 
 
+def update_rules(ctx: Ctx) -> Dict[str, FuncInfo]:
+    """type-code name -> the function Result.update dispatches to for it (a nested function or a method of Result)."""
+    M = ctx.model
+    upd = M.func(RES, 'Result.update')
+    cls = M.cls('Result')
+    sn = upd.self_name or 'self'
+    out: Dict[str, FuncInfo] = {}
+    for n in walk_no_nested(upd.node):
+        if isinstance(n, ast.Dict) and n.keys and all(isinstance(k, ast.Attribute) for k in n.keys):
+            for k, v in zip(n.keys, n.values):
+                f = None
+                if isinstance(v, ast.Name) and v.id in upd.nested:
+                    f = upd.nested[v.id]
+                else:
+                    a = is_self_attr(v, sn)
+                    if a:
+                        f = M.lookup_method(cls, a)
+                if f is not None:
+                    out[k.attr] = f
+    return out
+
+
 def _value_inplace_writers(ctx: Ctx) -> List[str]:
+    """Names of the type codes whose update rule writes self._value IN PLACE, plus '?<qualname>' for any other in-place writer."""
     cls = ctx.model.cls('Result')
+    rules = update_rules(ctx)
+    by_node = {id(f.node): code for code, f in rules.items()}
     out = []
     for fn in ctx.model.all_functions():
         if fn.cls is not cls:
             continue
         sn = fn.self_name or 'self'
+        hit = False
         for n in walk_no_nested(fn.node):
             if isinstance(n, ast.Subscript) and isinstance(n.ctx, ast.Store) and is_self_attr(n.value, sn) == '_value':
-                out.append(fn.qualname)
+                hit = True
             if isinstance(n, ast.Call) and isinstance(n.func, ast.Attribute) and n.func.attr in MUTATORS \
                     and is_self_attr(n.func.value, sn) == '_value':
-                out.append(fn.qualname)
+                hit = True
+        if hit:
+            out.append(by_node.get(id(fn.node), '?' + fn.qualname))
     return sorted(set(out))
 
 
@@ -105,6 +133,16 @@ def _check_merged_once(ctx: Ctx) -> None:
                         t = norm(i.test).replace(' ', '').replace('"', "'")
                         if t in ("%s!='%s'" % (v, SPECIAL), "'%s'!=%s" % (SPECIAL, v), "not%s=='%s'" % (v, SPECIAL)):
                             excl = True
+                # ... or the loop runs over a selection that already left the special name out
+                from ..astutil import expander
+                src = expander(fn)(l.iter)
+                if isinstance(src, (ast.ListComp, ast.GeneratorExp, ast.SetComp)) and len(src.generators) == 1:
+                    g = src.generators[0]
+                    tv = norm(g.target)
+                    for cond in g.ifs:
+                        t = norm(cond).replace(' ', '').replace('"', "'")
+                        if t in ("%s!='%s'" % (tv, SPECIAL), "'%s'!=%s" % (SPECIAL, tv), "not%s=='%s'" % (tv, SPECIAL)) and norm(src.elt) == tv:
+                            excl = True
                 generic.append((c, excl))
     ok = len(generic) == 1 and ((len(dedicated) == 1 and generic[0][1]) or (len(dedicated) == 0 and not generic[0][1]))
     ctx.obligation('C06.e', q, ok, {'generic_merge_sites': len(generic), 'generic_excludes_special': [g[1] for g in generic],
@@ -122,7 +160,7 @@ def check(ctx: Ctx) -> None:
     ctx.rule('C06.a', 'no mutation of the merged-in operand (stores, in-place calls, receiver-mutating methods)', floor=5)
     ctx.rule('C06.b', 'no alias capture of operand containers/objects into the receiver', floor=2)
     inplace = _value_inplace_writers(ctx)
-    premise_ok = all('CHOICETYPE' in q for q in inplace) and bool(inplace)
+    premise_ok = inplace == ['CHOICETYPE']
     for path, qual, operand, capture in OPERANDS:
         fn = M.func(path, qual)
         if operand not in fn.params:
@@ -191,8 +229,12 @@ def _check_stat_sets(ctx: Ctx) -> None:
     eq = M.func(RES, 'Result.__eq__')
     sn = upd.self_name or 'self'
     maintained = _stored_attrs([upd.node], sn)
-    if len(upd.nested) < 4:
-        ctx.error('C06.c: Result.update no longer has its four nested update rules (idiom unknown)')
+    rules = update_rules(ctx)
+    if len(rules) < 4:
+        ctx.error('C06.c: Result.update no longer dispatches to four update rules through a type-code dictionary (idiom unknown)')
+    for rf in rules.values():
+        if rf.kind != 'nested' and rf.self_name:
+            maintained |= _stored_attrs(rf.node.body, rf.self_name, M, M.cls('Result'))
     # merge: statements outside the type test apply to every branch; the if/else on the type code gives the branches
     common: Set[str] = set()
     branches: List[Set[str]] = []
